@@ -57,6 +57,7 @@ def families():
         "methods-subclass-receivers": [(S.Base.meth, {"self": S.Base, "x": int}, int, None), (S.Base.meth, {"self": S.Derived, "x": str}, str, None), (S.Base.meth, {"self": S.Multi, "x": S.Other}, NT, None), (S.Base.cmeth.__func__, {"cls": typing_type(S.Base), "x": int}, int, None), (S.Base.cmeth.__func__, {"cls": typing_type(S.Derived), "x": L[str]}, L[str], None)],
         "six-tuple-shapes": [(S.mfunc, {"x": t}, int, None) for t in (Tu[int], Tu[int, int], Tu[str], Tu[str, str], Tu[float], Tu[int, int, int], Tu[()])],
         "seven-classes": [(S.mfunc, {"x": t}, NT, None) for t in (int, str, float, bytes, S.Base, S.Other, NT)],
+        "six-classes-two-base-orders": [(S.mfunc, {"x": t}, NT, None) for t in (S.DA, S.DB, S.DC, S.DD, S.DE, S.DF)],
         "same-qualname-two-modules": [(S.mfunc, {"x": int}, int, None), (S2.mfunc, {"x": int}, int, None), (S2.mfunc, {"x": str}, str, None), (S.Base.meth, {"self": S.Base, "x": int}, int, None), (S2.Base.meth, {"self": S2.Base, "x": int}, int, None)],
         "nested-class-methods": [(S.Outer.Inner.imeth, {"self": S.Outer.Inner, "x": int}, int, None), (S.Outer.Inner.ismeth, {"x": str}, str, None), (S.Outer.Inner.Deep.dmeth, {"self": S.Outer.Inner.Deep, "x": int}, NT, None), (S.Outer.ometh, {"self": S.Outer, "x": float}, float, None)],
         "typed-dict-subset-in-tuples": [(S.mfunc, {"x": Tu[mk_atd({"a": int, "b": str}, {})]}, int, None), (S.mfunc, {"x": Tu[mk_atd({"a": int}, {})]}, int, None), (S.wrapped.__wrapped__, {"x": D[int, mk_atd({"a": int, "b": str}, {})]}, int, None), (S.wrapped.__wrapped__, {"x": D[int, mk_atd({"a": int}, {})]}, int, None), (S.wrapped.__wrapped__, {"x": D[int, mk_atd({"a": int, "b": str, "c": int}, {})]}, int, None)],
